@@ -7,6 +7,7 @@ text, and the wire encoding shared with the Lean driver (floats as {"$float": ..
 import json
 import math
 import re
+from collections.abc import Mapping as _Mapping
 
 PART_OF_RUN = False
 
@@ -32,7 +33,7 @@ def enc(v):
         return clean(v)
     if isinstance(v, (list, tuple)):
         return [enc(x) for x in v]
-    if isinstance(v, dict):
+    if isinstance(v, _Mapping):     # dict, OrderedDict, MappingProxyType, custom Mapping (resolver-supplied extensions)
         return {clean(str(k)): enc(x) for k, x in v.items()}
     return {"$nonjson": type(v).__name__}
 
